@@ -12,6 +12,7 @@ CONSTANTS
   InterB = 2
   LinLen = 3
   BBLen = 3
+  AltLen = 3
 INVARIANT InvDomain
 INVARIANT InvResult
 INVARIANT InvIds
@@ -25,4 +26,5 @@ INVARIANT InvPoly
 INVARIANT InvInter
 INVARIANT InvLin
 INVARIANT InvBB
+INVARIANT InvAlt
 CHECK_DEADLOCK FALSE
